@@ -23,6 +23,17 @@ pub fn render_ty(ty: &TyExpr, m: &Module) -> String {
         }
         TyExpr::Param(p) => p.clone(),
         TyExpr::SelfRef(s) => s.to_string(),
+        TyExpr::Lib(n, args) => {
+            if args.is_empty() {
+                n.to_string()
+            } else if *n == "[_]" {
+                format!("[{}]", render_ty(&args[0], m))
+            } else if *n == "std::borrow::Cow" {
+                format!("std::borrow::Cow<'static, {}>", render_ty(&args[0], m))
+            } else {
+                format!("{}<{}>", n, args.iter().map(|t| render_ty(t, m)).collect::<Vec<_>>().join(", "))
+            }
+        }
     }
 }
 
@@ -127,6 +138,10 @@ fn generics_use(td: &TypeDef) -> String {
 pub fn render_type(td: &TypeDef, m: &Module) -> String {
     let mut out = String::new();
     render_doc(&td.docs, "    ", &mut out);
+    let unit_enum = matches!(&td.body, Body::Enum(vs) if !vs.is_empty() && vs.iter().all(|v| matches!(v.body, VBody::Unit)));
+    if unit_enum && td.params.is_empty() {
+        out.push_str("    #[derive(Clone, Copy, Debug, PartialEq, Eq, Hash, PartialOrd, Ord)]\n");
+    }
     if m.serde {
         out.push_str("    #[derive(ts_rs::TS, serde::Serialize, serde::Deserialize)]\n");
     } else {
